@@ -12,7 +12,7 @@ import random
 
 import vf
 
-WRITER = {'plain': {'InPlace', 'RenameOver'}, 'k8s': {'MkDir', 'Swap', 'RmDir'}}
+WRITER = {'plain': {'InPlace', 'RenameOver', 'Remove', 'Create'}, 'k8s': {'MkDir', 'Swap', 'RmDir'}}
 
 
 def quiescent_graph(g, layout):
@@ -52,7 +52,9 @@ def quiescent_graph(g, layout):
 
 def step_of(layout, name, args):
     if layout == 'plain':
-        return {'op': 'inplace' if name == 'InPlace' else 'rename', 'f': args[0], 'c': args[1]}
+        if name == 'Remove':
+            return {'op': 'remove', 'f': args[0]}
+        return {'op': {'InPlace': 'inplace', 'RenameOver': 'rename', 'Create': 'create'}[name], 'f': args[0], 'c': args[1]}
     if name == 'MkDir':
         return {'op': 'mkdir', 'd': args[0], 'ok': args[1]}
     return {'op': 'swap' if name == 'Swap' else 'rmdir', 'd': args[0]}
@@ -100,20 +102,37 @@ def run(ctx):
     t = ctx.tier
     ctx.tlc('CertReload', 'MC_C14_plain_full%s.cfg' % ('_thorough' if t == 'thorough' else ''), label='plain files, all interleavings (torn reads included)', timeout=1800)
     ctx.tlc('CertReloadK8s', 'MC_C14_k8s_full.cfg', label='kubernetes layout, all interleavings', timeout=1800)
-    r = ctx.tlc('CertReload', 'MC_C14_plain_mutant.cfg', label='without re-Add after REMOVE: must violate Converges', expect_ok=False, timeout=900)
-    if r['violation'] != 'invariant Converges':
-        raise vf.Inconclusive('non-vacuity guard failed (%s)' % r['violation'])
+    ctx.tlc('CertReload', 'MC_C14_plain_rm_full.cfg', label='plain files that may be unlinked and created again, all interleavings', timeout=1800)
+    for cfg, what in (('MC_C14_plain_mutant.cfg', 'without re-Add after REMOVE'), ('MC_C14_plain_rm_mutant.cfg', 'a watcher that re-reads only the file named by the event')):
+        r = ctx.tlc('CertReload', cfg, label='%s: must violate Converges' % what, expect_ok=False, timeout=900)
+        if r['violation'] != 'invariant Converges':
+            raise vf.Inconclusive('non-vacuity guard failed for %s (%s)' % (cfg, r['violation']))
     rng = random.Random(ctx.seed)
     hist = []
     expect = {}
     for layout, module, cfg, n, depth in (('plain', 'CertReload', 'MC_C14_plain_ser%s.cfg' % ('_thorough' if t == 'thorough' else ''), 320 if t == 'quick' else 3000, 4),
                                           ('rot', 'CertReload', 'MC_C14_plain_rot%s.cfg' % ('_thorough' if t == 'thorough' else ''), 0, 0),
+                                          ('rm', 'CertReload', 'MC_C14_plain_rm_ser.cfg', 0, 0),
                                           ('k8s', 'CertReloadK8s', 'MC_C14_k8s_ser.cfg', 120 if t == 'quick' else 600, 7)):
         gpath, g, _ = vf.tlc_graph(ctx, module, cfg, 'c14' + layout, timeout=1800)
         rot = layout == 'rot'
-        if rot:
+        rm = layout == 'rm'
+        if rot or rm:
             layout = 'plain'
         der = quiescent_graph(g, layout)
+        if rm:
+            # files that go missing and come back (unlink, create at the vacant path): every history of three steps with a removal in it -
+            # all of those that re-create the file, a sample of the others in the quick tier
+            allp = [p for p in enumerate_paths(der, g['init'][0], 3, lambda nm, a: True) if any(nm == 'Remove' for nm, _, _ in p)]
+            back = [p for p in allp if any(nm == 'Create' for nm, _, _ in p)]
+            rest = [p for p in allp if not any(nm == 'Create' for nm, _, _ in p)]
+            rng.shuffle(rest)
+            if t == 'quick':
+                rest = rest[:150]
+            for p in back + rest:
+                hid = len(hist)
+                hist.append({'id': hid, 'layout': layout, 'steps': [step_of(layout, nm, a) for nm, a, _ in p], 'removal_family': True})
+                expect[hid] = [c for _, _, c in p]
         for p in sample_paths(der, g['init'][0], rng, n, depth):
             hid = len(hist)
             hist.append({'id': hid, 'layout': layout, 'steps': [step_of(layout, nm, a) for nm, a, _ in p]})
@@ -189,4 +208,4 @@ def run(ctx):
            'rule': 'histories = random walks over the quiescent-state graph derived from the serialized TLC model (2 files x contents {v0,v1,v2,empty,garbage} x {in-place, rename-over}; '
                    'kubernetes: new version dir (good / mismatching) x ..data swap x removal of old dirs)'}
     return ctx.finish(cov, assumptions=['quiescence = certwatcher.event hooks received == handled and stable for 40 ms (verdicts only after a solitary re-run)',
-                                        'delete-then-recreate, rename-away, extra hard links and a symlink swap whose old directory is never removed are outside the quantifier'])
+                                        'after a file was unlinked and created again nobody watches it (inodes are watched, not paths): convergence is claimed for histories whose last step the watcher was told about; rename-away, extra hard links and a symlink swap whose old directory is never removed are outside the quantifier'])
